@@ -797,70 +797,10 @@ func (x *c08) renew(op C08Op) error {
 		}
 		return x.after(what+" -> "+r.Result.String(), &before, nil)
 	}
-	// completed: the set handed to the contractor must carry core's renewal,
-	// fully signed
-	var renewCalls []rhpx.Call
-	for _, c := range calls {
-		if c.Op == "RenewV2Contract" && !c.Failed() {
-			renewCalls = append(renewCalls, c)
-		}
-		if (commitOps[c.Op] || c.Op == "AddV2Contract") && !c.Failed() {
-			return fmt.Errorf("%s: unexpected %s during a renewal", what, c.Op)
-		}
+	nm, err := x.verifyRenewal(what, m, op.Op, args, prices, calls)
+	if err != nil {
+		return err
 	}
-	if len(renewCalls) != 1 {
-		return fmt.Errorf("%s: %d RenewV2Contract calls, one expected", what, len(renewCalls))
-	}
-	set := renewCalls[0].Set
-	if len(set.Transactions) == 0 {
-		return fmt.Errorf("%s: empty renewal set", what)
-	}
-	txn := set.Transactions[len(set.Transactions)-1]
-	if len(txn.FileContractResolutions) != 1 || types.FileContractID(txn.FileContractResolutions[0].Parent.ID) != m.ID {
-		return fmt.Errorf("%s: the renewal set does not resolve exactly this contract", what)
-	}
-	got, ok := txn.FileContractResolutions[0].Resolution.(*types.V2FileContractRenewal)
-	if !ok {
-		return fmt.Errorf("%s: resolution is not a renewal", what)
-	}
-	var exp types.V2FileContractRenewal
-	var expUsage proto4.Usage
-	hostAddr := x.H.HostWallet.Address()
-	switch op.Op {
-	case "renew":
-		exp, expUsage = proto4.RenewContract(m.Rev, prices, hostAddr, proto4.RPCRenewContractParams{ContractID: m.ID, Allowance: args.Allowance, Collateral: args.Collateral, ProofHeight: args.ProofHeight})
-	case "refresh-full":
-		exp, expUsage = proto4.RefreshContractFullRollover(m.Rev, prices, hostAddr, proto4.RPCRefreshContractParams{ContractID: m.ID, Allowance: args.Allowance, Collateral: args.Collateral})
-	default:
-		exp, expUsage = proto4.RefreshContractPartialRollover(m.Rev, prices, hostAddr, proto4.RPCRefreshContractParams{ContractID: m.ID, Allowance: args.Allowance, Collateral: args.Collateral})
-	}
-	cmp := *got
-	cmp.RenterSignature, cmp.HostSignature = types.Signature{}, types.Signature{}
-	cmp.NewContract = nosig(cmp.NewContract)
-	if !reflect.DeepEqual(cmp, exp) {
-		return fmt.Errorf("%s: the renewal handed to the contractor is not core's renewal of the previous revision and the request:\n got %+v\nwant %+v", what, cmp, exp)
-	}
-	if renewCalls[0].Usage != expUsage {
-		return fmt.Errorf("%s: recorded usage %+v, core gives %+v", what, renewCalls[0].Usage, expUsage)
-	}
-	cs := x.tipState()
-	rh, ch := cs.RenewalSigHash(*got), cs.ContractSigHash(got.NewContract)
-	rk, hk := m.Rev.RenterPublicKey, m.Rev.HostPublicKey
-	switch {
-	case !rk.VerifyHash(rh, got.RenterSignature):
-		return fmt.Errorf("%s: renter renewal signature does not verify", what)
-	case !hk.VerifyHash(rh, got.HostSignature):
-		return fmt.Errorf("%s: host renewal signature does not verify", what)
-	case !rk.VerifyHash(ch, got.NewContract.RenterSignature):
-		return fmt.Errorf("%s: renter signature of the new contract does not verify", what)
-	case !hk.VerifyHash(ch, got.NewContract.HostSignature):
-		return fmt.Errorf("%s: host signature of the new contract does not verify", what)
-	}
-	m.Renewed = true
-	nm := &mcontract{ID: m.ID.V2RenewalID(), Rev: got.NewContract, Formed: got.NewContract, Roots: append([]types.Hash256(nil), m.Roots...)}
-	nm.Chain = append(nm.Chain, nm.Rev)
-	x.C = append(x.C, nm)
-	x.commits++
 	if err := x.H.Mine(types.VoidAddress, 1); err != nil {
 		return err
 	}
@@ -874,6 +814,92 @@ func (x *c08) renew(op C08Op) error {
 	}
 	x.cs.Class("renewal-committed")
 	return x.after(what, nil, nil)
+}
+
+// verifyRenewal checks the calls recorded during a completed renew/refresh:
+// exactly one RenewV2Contract, carrying core's renewal of the latest committed
+// revision and the request, with four valid signatures; it then records the
+// renewal in the model and returns the new contract.
+func (x *c08) verifyRenewal(what string, m *mcontract, kind string, args rhpx.RenewArgs, prices proto4.HostPrices, calls []rhpx.Call) (*mcontract, error) {
+	// completed: the set handed to the contractor must carry core's renewal,
+	// fully signed
+	var renewCalls []rhpx.Call
+	for _, c := range calls {
+		if c.Op == "RenewV2Contract" && !c.Failed() {
+			renewCalls = append(renewCalls, c)
+		}
+		if (commitOps[c.Op] || c.Op == "AddV2Contract") && !c.Failed() {
+			return nil, fmt.Errorf("%s: unexpected %s during a renewal", what, c.Op)
+		}
+	}
+	if len(renewCalls) != 1 {
+		return nil, fmt.Errorf("%s: %d RenewV2Contract calls, one expected", what, len(renewCalls))
+	}
+	set := renewCalls[0].Set
+	if len(set.Transactions) == 0 {
+		return nil, fmt.Errorf("%s: empty renewal set", what)
+	}
+	txn := set.Transactions[len(set.Transactions)-1]
+	if len(txn.FileContractResolutions) != 1 || types.FileContractID(txn.FileContractResolutions[0].Parent.ID) != m.ID {
+		return nil, fmt.Errorf("%s: the renewal set does not resolve exactly this contract", what)
+	}
+	got, ok := txn.FileContractResolutions[0].Resolution.(*types.V2FileContractRenewal)
+	if !ok {
+		return nil, fmt.Errorf("%s: resolution is not a renewal", what)
+	}
+	var exp types.V2FileContractRenewal
+	var expUsage proto4.Usage
+	hostAddr := x.H.HostWallet.Address()
+	switch kind {
+	case "renew":
+		exp, expUsage = proto4.RenewContract(m.Rev, prices, hostAddr, proto4.RPCRenewContractParams{ContractID: m.ID, Allowance: args.Allowance, Collateral: args.Collateral, ProofHeight: args.ProofHeight})
+	case "refresh-full":
+		exp, expUsage = proto4.RefreshContractFullRollover(m.Rev, prices, hostAddr, proto4.RPCRefreshContractParams{ContractID: m.ID, Allowance: args.Allowance, Collateral: args.Collateral})
+	default:
+		exp, expUsage = proto4.RefreshContractPartialRollover(m.Rev, prices, hostAddr, proto4.RPCRefreshContractParams{ContractID: m.ID, Allowance: args.Allowance, Collateral: args.Collateral})
+	}
+	// the renewal must finalise the contract from the host's LATEST committed
+	// revision: what it pays out and rolls over is exactly that revision's payouts
+	if rs, unlock, lerr := x.H.Contractor.LockV2Contract(m.ID); lerr == nil {
+		latest := rs.Revision
+		unlock()
+		if rshare, hshare := got.FinalRenterOutput.Value.Add(got.RenterRollover), got.FinalHostOutput.Value.Add(got.HostRollover); !rshare.Equals(latest.RenterOutput.Value) || !hshare.Equals(latest.HostOutput.Value) {
+			return nil, fmt.Errorf("%s: the renewal is not based on the host's latest committed revision %d: renter share %v (latest renter payout %v), host share %v (latest host payout %v)", what, latest.RevisionNumber, rshare, latest.RenterOutput.Value, hshare, latest.HostOutput.Value)
+		}
+		if !reflect.DeepEqual(latest, m.Rev) {
+			return nil, fmt.Errorf("%s: the renewed contract's latest committed revision is not the model's: %s", what, revDiff(m.Rev, latest))
+		}
+	} else {
+		return nil, fmt.Errorf("%s: cannot read the renewed contract afterwards: %v", what, lerr)
+	}
+	cmp := *got
+	cmp.RenterSignature, cmp.HostSignature = types.Signature{}, types.Signature{}
+	cmp.NewContract = nosig(cmp.NewContract)
+	if !reflect.DeepEqual(cmp, exp) {
+		return nil, fmt.Errorf("%s: the renewal handed to the contractor is not core's renewal of the previous revision and the request:\n got %+v\nwant %+v", what, cmp, exp)
+	}
+	if renewCalls[0].Usage != expUsage {
+		return nil, fmt.Errorf("%s: recorded usage %+v, core gives %+v", what, renewCalls[0].Usage, expUsage)
+	}
+	cs := x.tipState()
+	rh, ch := cs.RenewalSigHash(*got), cs.ContractSigHash(got.NewContract)
+	rk, hk := m.Rev.RenterPublicKey, m.Rev.HostPublicKey
+	switch {
+	case !rk.VerifyHash(rh, got.RenterSignature):
+		return nil, fmt.Errorf("%s: renter renewal signature does not verify", what)
+	case !hk.VerifyHash(rh, got.HostSignature):
+		return nil, fmt.Errorf("%s: host renewal signature does not verify", what)
+	case !rk.VerifyHash(ch, got.NewContract.RenterSignature):
+		return nil, fmt.Errorf("%s: renter signature of the new contract does not verify", what)
+	case !hk.VerifyHash(ch, got.NewContract.HostSignature):
+		return nil, fmt.Errorf("%s: host signature of the new contract does not verify", what)
+	}
+	m.Renewed = true
+	nm := &mcontract{ID: m.ID.V2RenewalID(), Rev: got.NewContract, Formed: got.NewContract, Roots: append([]types.Hash256(nil), m.Roots...)}
+	nm.Chain = append(nm.Chain, nm.Rev)
+	x.C = append(x.C, nm)
+	x.commits++
+	return nm, nil
 }
 
 // race starts 2 or 3 honest RPCs (the chain op.Race, op.Race.Race, ...)
